@@ -251,7 +251,10 @@ def step (s : DState) (line : String) : DState × String :=
       let txs := match getBlk d (.txs n) with | some b => toString b.txs.length | none => "-"
       let su := if (d (.su n)).isSome then "y" else "-"
       let cm := if (d (.commit n)).isSome then "y" else "-"
-      (s, s!"hdr={hdr} nbh={nbh} txs={txs} su={su} cm={cm}")
+      let txl := match getBlk d (.txs n) with
+        | some b => toString (b.txs.filter (fun t => (d (.txLookup t)).isSome)).length
+        | none => "-"
+      (s, s!"hdr={hdr} nbh={nbh} txs={txs} txl={txl} su={su} cm={cm}")
     | none => (s, "bad-op")
   | _ => (s, "bad-op")
 
